@@ -13,7 +13,7 @@ THEOREMS = ['WV.C17.per_refines_circular', 'WV.C17.per_synthesis_is_transpose', 
             'WV.C17K.iso_W', 'WV.C17K.iso_H', 'WV.C17K.AFB2D_isometry', 'WV.C17K.DWT2D_isometry',
             'WV.C17T.foldCrop2_id', 'WV.C17T.AFB2D_backward_eq_map', 'WV.C17T.SFB2D_forward_per_val', 'WV.C17T.backprop_eq_inverse',
             'WV.C17T.inverse_is_transpose', 'WV.C17T.DWT2D_inverse_is_transpose',
-            'WV.C17U.lvls_of_levelsOK', 'WV.C17U.backprop_eq_inverse1', 'WV.C17U.DWT1D_inverse_is_transpose', 'WV.C17V.forward_shapes', 'WV.C17V.DWT1D_preserves_inner', 'WV.C05U.DWT1D_per_adjoint', 'WV.C10Z.module_glue_gen']
+            'WV.C17U.lvls_of_levelsOK', 'WV.C17U.backprop_eq_inverse1', 'WV.C17U.DWT1D_inverse_is_transpose', 'WV.C17V.forward_shapes', 'WV.C17V.DWT1D_preserves_inner', 'WV.C17W.forward_shapes2', 'WV.C17W.DWT2D_preserves_inner', 'WV.C05U.DWT1D_per_adjoint', 'WV.C10Z.module_glue_gen']
 OPS = ['afb1d', 'sfb1d', 'AFB1D_bwd', 'DWT1DForward', 'DWT1DInverse', 'DWTForward']
 
 
